@@ -563,8 +563,43 @@ func liveAsof(r *rand.Rand, tot map[string]int) {
 	}
 }
 
+// spanningTran: a transaction that is open across a persist which writes metadata
+func spanningTran(r *rand.Rand) {
+	ts := currentTables()
+	if len(ts) == 0 {
+		return
+	}
+	t := ts[r.Intn(len(ts))]
+	th := &core.Thread{}
+	ut := db.NewUpdateTran()
+	if ut == nil {
+		return
+	}
+	// something else commits and is persisted while ut is open
+	for i := 0; i < 1+r.Intn(2); i++ {
+		tranOp(r)
+	}
+	db.Persist()
+	res := try(func() {
+		for i := 0; i < 1+r.Intn(2); i++ {
+			ut.Output(th, t.name, randRec(r, t, false))
+		}
+	})
+	_ = res
+	if ut.Complete() == "" {
+		tr.Emit(vh.E("Committed"))
+	}
+	if r.Intn(2) == 0 {
+		db.Persist()
+	}
+}
+
 func history(r *rand.Rand, steps int) {
 	for i := 0; i < steps; i++ {
+		if r.Intn(14) == 0 {
+			spanningTran(r)
+			continue
+		}
 		if asofMode && r.Intn(5) == 0 {
 			liveAsof(r, nil)
 			continue
